@@ -30,7 +30,13 @@ def run(ctx):
     for L in langs:
         tg = [L] + sorted(exported["langs"][L]["locales"])
         for i in range(0, len(tg), 6):          # one work unit = a language and up to 5 of its locales (load balance)
-            reqs.append({"lang": L, "targets": tg[i:i + 6], "days": days, "years": years, "refs": refs, "quick": ctx.quick()})
+            reqs.append({"lang": L, "targets": tg[i:i + 6], "days": days, "years": years, "refs": refs, "quick": ctx.quick(),
+                         "search_first": False})
+    # every language once more with search_dates reaching it FIRST under the very settings the parser then uses (a
+    # reference time of their own keeps these settings apart from everything else the worker has seen)
+    for L in langs:
+        reqs.append({"lang": L, "targets": [L], "days": days[:1], "years": years[:1], "refs": [[r_[0], r_[1], r_[2], 11, 45, 0, 0] for r_ in refs[:1]], "quick": ctx.quick(),
+                     "search_first": True, "base_hour": 13})
     res = core.run_cases(ctx, "harness.c05lib", "walk_language", reqs, chunk=1)
     # ---- load order: the units above load the language first and its regional locales after it.  Regional locales that
     # add words of their own are also loaded FIRST in a fresh process, then the language, then sibling locales: what one
